@@ -45,3 +45,29 @@ Theorem C18_random_source_is_crypto_rand :
   uuid_random_reads = ["rand.Read(u[:16])"].
 Proof. exact random_source_is_crypto_rand. Qed.
 Print Assumptions C18_random_source_is_crypto_rand.
+
+(* HISTORIES. A history is any list of constructions, each one 16-byte read of the random source tagged with whatever
+   distinguishes it (message kind, service-provider instance, goroutine: the identifier does not depend on the tag).
+   For a history of any length: if the 122 free bits of the reads are pairwise distinct, no identifier repeats. *)
+Theorem C18_history_ids_never_repeat : forall (A : Type) (h : list (A * list N)),
+  Forall (fun e => List.length (snd e) = 16%nat /\ Forall (fun x => x < 256) (snd e)) h ->
+  NoDup (map (fun e => free_bits (snd e)) h) ->
+  NoDup (map (fun e => message_id (snd e)) h).
+Proof. exact history_ids_nodup. Qed.
+Print Assumptions C18_history_ids_never_repeat.
+
+(* ... and a repeated identifier anywhere in a history, whatever the tags, is a collision of the source's free bits *)
+Theorem C18_history_repeat_is_source_collision : forall (A : Type) (h : list (A * list N)) (i j : nat) (ei ej : A * list N),
+  Forall (fun e => List.length (snd e) = 16%nat /\ Forall (fun x => x < 256) (snd e)) h ->
+  nth_error h i = Some ei -> nth_error h j = Some ej ->
+  message_id (snd ei) = message_id (snd ej) -> free_bits (snd ei) = free_bits (snd ej).
+Proof. exact history_repeat_is_source_collision. Qed.
+Print Assumptions C18_history_repeat_is_source_collision.
+
+(* non-vacuity, and the converse direction on a witness: reads differing in a free bit get different identifiers; reads
+   differing only in a forced bit (byte 6: 7 vs 135) get the SAME identifier and the same free bits *)
+Theorem C18_history_example :
+  NoDup (map (fun e => message_id (snd e)) [(0%nat, hist_b0); (1%nat, hist_b1)]) /\
+  message_id hist_b0 = message_id hist_b2 /\ free_bits hist_b0 = free_bits hist_b2 /\ hist_b0 <> hist_b2.
+Proof. exact history_example. Qed.
+Print Assumptions C18_history_example.
